@@ -78,23 +78,28 @@ func c14Run(r *core.Run, idx int, rng *rand.Rand) {
 	type variant struct {
 		place, endpoint string
 		valid           bool
+		keyFault        bool // the key storage fails while the request is served
 	}
 	var variants []variant
 	for _, ep := range []string{"sso_query", "sso_form", "logout_query", "logout_form"} {
 		for _, pl := range []string{"comment", "text", "attribute", "after_root"} {
-			variants = append(variants, variant{pl, ep, true})
+			variants = append(variants, variant{pl, ep, true, false})
 		}
 	}
-	variants = append(variants, variant{"comment", "sso_query", false}, variant{"text", "logout_query", false}, variant{"garbage", "sso_query", false}, variant{"garbage", "logout_form", false})
+	variants = append(variants, variant{"comment", "sso_query", false, false}, variant{"text", "logout_query", false, false}, variant{"garbage", "sso_query", false, false}, variant{"garbage", "logout_form", false, false})
+	// padding in front of the root element; and bombs that arrive while the key storage is failing (error paths
+	// look at the message too)
+	variants = append(variants, variant{"before_root", "sso_query", true, false}, variant{"before_root", "logout_form", true, false},
+		variant{"before_root", "sso_query", true, true}, variant{"attribute", "sso_form", true, true}, variant{"text", "logout_query", true, true}, variant{"comment/zlib", "sso_query", true, true})
 	// other containers around the same DEFLATE data (what zlib / gzip producing peers send)
-	variants = append(variants, variant{"comment/zlib", "sso_query", true}, variant{"after_root/zlib", "logout_form", true}, variant{"text/gzip", "sso_form", true}, variant{"comment/gzip", "logout_query", true})
+	variants = append(variants, variant{"comment/zlib", "sso_query", true, false}, variant{"after_root/zlib", "logout_form", true, false}, variant{"text/gzip", "sso_form", true, false}, variant{"comment/gzip", "logout_query", true, false})
 	if !thorough {
 		// quick: every endpoint with two placements, every placement on two endpoints
 		keep := map[string]bool{"sso_query/comment": true, "sso_query/attribute": true, "sso_form/text": true, "sso_form/after_root": true,
 			"logout_query/comment": true, "logout_query/text": true, "logout_form/attribute": true, "logout_form/after_root": true}
 		var v2 []variant
 		for _, v := range variants {
-			if keep[v.endpoint+"/"+v.place] || !v.valid || strings.Contains(v.place, "/") {
+			if keep[v.endpoint+"/"+v.place] || !v.valid || strings.Contains(v.place, "/") || v.keyFault || v.place == "before_root" {
 				v2 = append(v2, v)
 			}
 		}
@@ -147,6 +152,12 @@ func c14Run(r *core.Run, idx int, rng *rand.Rand) {
 				pad = 'A'
 			case "after_root":
 				prefix, suffix = doc, ""
+			case "before_root":
+				at := 0
+				if strings.HasPrefix(doc, "<?xml") {
+					at = strings.Index(doc, "?>") + 2
+				}
+				prefix, suffix = doc[:at]+"<!--", "-->"+doc[at:]
 			case "garbage":
 				prefix, suffix, pad = "", "", 0
 			}
@@ -162,6 +173,15 @@ func c14Run(r *core.Run, idx int, rng *rand.Rand) {
 			case "logout_form":
 				rq = env.Req{Method: "POST", Path: env.PathSLO, Body: "SAMLEncoding=" + url.QueryEscape(spsim.EncDeflate) + "&SAMLRequest=" + url.QueryEscape(param)}
 			}
+			e.W.Plan = nil
+			if v.keyFault {
+				e.W.Plan = func(tag, op string, occ int) string {
+					if op == "GetResponseSigningKey" || op == "GetMetadataSigningKey" {
+						return "error"
+					}
+					return ""
+				}
+			}
 			runtime.GC()
 			var m0, m1 runtime.MemStats
 			runtime.ReadMemStats(&m0)
@@ -174,6 +194,10 @@ func c14Run(r *core.Run, idx int, rng *rand.Rand) {
 			results = append(results, res)
 			deltas[size] = res.Delta
 			class := fmt.Sprintf("%s|%s|valid=%v|%dMiB", v.endpoint, v.place, v.valid, size>>20)
+			if v.keyFault {
+				class += "|key_storage_fault"
+				r.Count("payloads_during_key_storage_fault", 1)
+			}
 			desc := map[string]any{"endpoint": v.endpoint, "padding": v.place, "inflated_bytes": size, "parameter_bytes": len(param), "allocated_bytes": res.Delta, "millis": ms, "status": call.D.Status}
 			r.Eval(class)
 			r.Count("payloads", 1)
@@ -219,9 +243,10 @@ func init() {
 		TimeoutQuick: 10 * time.Minute, TimeoutThorough: 40 * time.Minute,
 		Build: func(c *Ctx) []core.Workload {
 			r := c.Run
-			r.Rule = "DEFLATE payloads inflating to 1, 4, 16, 64, 256 MiB (thorough: + 1 GiB) with the padding in a comment, in text, in an attribute value, after the root element or as pure garbage, as raw DEFLATE and inside zlib / gzip containers, inside otherwise valid and invalid AuthnRequests / LogoutRequests, sent to the SSO endpoint by query and by form and to the logout endpoint by query and by form; strictly sequential in a dedicated child process. Monitor: runtime.MemStats.TotalAlloc delta around one ServeHTTP (ceiling 512 MiB), flatness (256 MiB / 1 GiB bombs may cost at most 1.5 x the 64 MiB bomb + 16 MiB), payloads inflating to >= 32 MiB not accepted. Sizes ascend and the run stops at the first ceiling/flatness violation. Distinct = (endpoint, placement, validity, size)."
+			r.Rule = "DEFLATE payloads inflating to 1, 4, 16, 64, 256 MiB (thorough: + 1 GiB) with the padding in a comment, in text, in an attribute value, in front of or after the root element or as pure garbage, also while the key storage is failing, as raw DEFLATE and inside zlib / gzip containers, inside otherwise valid and invalid AuthnRequests / LogoutRequests, sent to the SSO endpoint by query and by form and to the logout endpoint by query and by form; strictly sequential in a dedicated child process. Monitor: runtime.MemStats.TotalAlloc delta around one ServeHTTP (ceiling 512 MiB), flatness (256 MiB / 1 GiB bombs may cost at most 1.5 x the 64 MiB bomb + 16 MiB), payloads inflating to >= 32 MiB not accepted. Sizes ascend and the run stops at the first ceiling/flatness violation. Distinct = (endpoint, placement, validity, size)."
 			r.Assume("TotalAlloc (cumulative allocation) is measured, not resident memory; thresholds are loose so that any reasonable cap (8-32 MiB) passes")
 			r.Require("payloads", int64(c.Pick(70, 130)))
+			r.Require("payloads_during_key_storage_fault", 10)
 			r.Require("flatness_comparisons", int64(c.Pick(10, 40)))
 			return []core.Workload{{Name: "bombs", N: 1, Workers: 1, Fn: c14Run}}
 		},
